@@ -135,6 +135,11 @@ func (fst *FSTree) Put(r record.Record) (record.Record, error) {
 	if err != nil {
 		return nil, err
 	}
+	if dstPath == fst.basePath {
+		// A key like "." or "/" resolves to the database directory itself. Writing
+		// it would place the temporary file next to that directory, outside of it.
+		return nil, fmt.Errorf("fstree: key %q does not name a record within the database directory", r.DatabaseKey())
+	}
 
 	data, err := r.MarshalRecord(r)
 	if err != nil {
